@@ -280,11 +280,13 @@ fn starts(m: usize) -> Vec<Vec<f64>> {
     // the last two starts of every model are close to the truth (initial sum of squares below the usual FD widths
     // but far above the tolerances): a start that is nearly right must still be refined to the tolerance
     if m <= 3 {
-        vec![vec![0.0; v], t.iter().map(|x| x + 0.5).collect(), vec![1.0; v], t.iter().map(|x| x + 0.01).collect(), t.iter().enumerate().map(|(i, x)| x + if i % 2 == 0 { 0.003 } else { -0.003 }).collect()]
+        vec![vec![0.0; v], t.iter().map(|x| x + 0.5).collect(), vec![1.0; v], t.iter().map(|x| x + 0.01).collect(), t.iter().enumerate().map(|(i, x)| x + if i % 2 == 0 { 0.003 } else { -0.003 }).collect(), t.clone()]
     } else {
         let mut s: Vec<Vec<f64>> = (0..1usize << v).map(|mask| t.iter().enumerate().map(|(i, x)| x * if mask >> i & 1 == 1 { 1.2 } else { 0.8 }).collect()).collect();
         s.push(t.iter().map(|x| x * 1.02).collect());
         s.push(t.iter().enumerate().map(|(i, x)| x * if i % 2 == 0 { 0.995 } else { 1.005 }).collect());
+        // exactly the generating parameters: with noise-free data the start is a stationary point (no step can improve it)
+        s.push(t.clone());
         s
     }
 }
@@ -294,7 +296,7 @@ impl Check for CurveFit {
         "curve-fit"
     }
     fn rule(&self) -> String {
-        format!("models {:?} x abscissa family x n x noise (linear models only) x every start (linear: 3 fixed and 2 near the truth; non-linear: all 2^V corners at +-20% of the truth and 2 starts within 2%) x tolerance x FD width x (damping, multiplier); both Jacobian variants run on every point; signature = (model, outcome class of each variant, iteration-count class)", MODELS)
+        format!("models {:?} x abscissa family x n x noise (linear models only) x every start (linear: 3 fixed, 2 near the truth and the generating parameters themselves; non-linear: all 2^V corners at +-20% of the truth, 2 starts within 2% and the truth itself) x tolerance x FD width x (damping, multiplier); both Jacobian variants run on every point; signature = (model, outcome class of each variant, iteration-count class)", MODELS)
     }
     fn axes(&self, t: Tier) -> Value {
         json!({"models": MODELS, "family": t.pick(vec![0,2], vec![0,1,2,3]), "n": t.pick("12, 60, V, V+1 (V = number of parameters, at least 3)", "5, 12, 30, 60, V, V+1"), "noise": [0.0, 0.05],
@@ -349,7 +351,7 @@ impl Check for CurveFit {
         let target: Vec<f64> = if p.model <= 3 { svd.solve(&DVector::from_column_slice(&ys), 1e-14).unwrap().as_slice().to_vec() } else { tr.clone() };
         let pnorm = target.iter().fold(0.0f64, |m, x| m.max(x.abs()));
         let mut bound = 20.0 * p.tol.sqrt() / smin + 1e-9 * (1.0 + pnorm);
-        if p.model <= 3 && p.start >= 3 {
+        if p.model <= 3 && p.start >= 3 && p.start <= 4 {
             // Starts close to the truth: the documented stopping rule ("the sum of squares changed by at most tol")
             // can be met at once, and what it implies for the parameters depends on the damping that is still in
             // force.  For a model linear in its parameters, with A = J^T J, D = diag(A) and mu_i the eigenvalues of
